@@ -49,6 +49,13 @@ func main() {
 			which = os.Args[2]
 		}
 		os.Exit(controls(which))
+	case "matrix":
+		// development aid: run every registered property on one tree (no evidence written)
+		dir := repoDir()
+		if len(os.Args) > 2 {
+			dir = os.Args[2]
+		}
+		os.Exit(matrix(dir))
 	case "list":
 		var ids []string
 		for id := range rules.Registry {
@@ -150,7 +157,7 @@ func check(id, tier string) int {
 	}
 	v := merged.Verdict(known)
 	var controls interface{}
-	if rules.ControlsHook != nil {
+	if rules.ControlsHook != nil && os.Getenv("CACHELINT_NOCONTROLS") == "" {
 		controls = rules.ControlsHook(id, tier, seed(), repoDir())
 	}
 	meta := rules.Metas[id]
@@ -223,6 +230,61 @@ func controls(which string) int {
 		return 1
 	}
 	return 0
+}
+
+func matrix(dir string) int {
+	var ids []string
+	for id := range rules.Registry {
+		ids = append(ids, id)
+	}
+	sort.Strings(ids)
+	progs := map[string]*core.Prog{}
+	load := func(arch string) (*core.Prog, error) {
+		if p, ok := progs[arch]; ok {
+			return p, nil
+		}
+		p, err := core.Load(core.LoadOpts{Dir: dir, GOARCH: arch})
+		if err == nil {
+			progs[arch] = p
+		}
+		return p, err
+	}
+	rc := 0
+	for _, id := range ids {
+		rulesHit := map[string]bool{}
+		var first string
+		for _, arch := range append([]string{""}, rules.ExtraArchs[id]...) {
+			p, err := load(arch)
+			if err != nil {
+				fmt.Printf("%s LOADFAIL %v\n", id, err)
+				return 2
+			}
+			rep := safeRun(rules.Registry[id], rules.NewRun(p, "quick"), id)
+			for _, o := range rep.Obs {
+				if o.Status != core.Pass {
+					rulesHit[o.Rule] = true
+					if first == "" {
+						first = fmt.Sprintf("%s @ %s: %s", o.Key(), o.Pos, o.Detail)
+					}
+				}
+			}
+		}
+		var rs []string
+		for k := range rulesHit {
+			rs = append(rs, k)
+		}
+		sort.Strings(rs)
+		if len(rs) == 0 {
+			fmt.Printf("%s ok\n", id)
+		} else {
+			rc = 1
+			if len(first) > 300 {
+				first = first[:300]
+			}
+			fmt.Printf("%s FAIL %v :: %s\n", id, rs, first)
+		}
+	}
+	return rc
 }
 
 func writeLoadFailure(id, tier, cfg string, err error) string {
